@@ -171,6 +171,8 @@ func pseudoSort(t types.Type) (Sort, bool) {
 		return SBV32, true
 	case "bv1":
 		return SBV1, true
+	case "intarray": // contents of a backing array of integers (bytes, runes)
+		return ArrSort(SInt, SInt), true
 	}
 	return "", false
 }
